@@ -177,6 +177,38 @@ def _resolve_types(node, types):
                     stack.append(v)
 
 
+class PreparedFns(dict):
+    """path -> [functions]; a function of a library crate of the repository is normalised on first access
+    (psa.norm.prepare: parameters renamed to the known names, new helper functions inlined, let aliases registered)"""
+
+    def __init__(self, raw, crate):
+        dict.__init__(self, raw)
+        self._crate = crate
+        self._done = set()
+
+    def _prep(self, k):
+        if k not in self._done and dict.__contains__(self, k):
+            self._done.add(k)
+            from . import norm
+            dict.__setitem__(self, k, [norm.prepare(f, self._crate) for f in dict.__getitem__(self, k)])
+
+    def __getitem__(self, k):
+        self._prep(k)
+        return dict.__getitem__(self, k)
+
+    def get(self, k, d=None):
+        self._prep(k)
+        return dict.get(self, k, d)
+
+    def items(self):
+        for k in list(dict.keys(self)):
+            yield k, self[k]
+
+    def values(self):
+        for k in list(dict.keys(self)):
+            yield self[k]
+
+
 class Crate:
     def __init__(self, doc, fname):
         self.doc = doc
@@ -187,6 +219,9 @@ class Crate:
         for f in doc["fns"]:
             # several fns may share a path (e.g. closures are inlined; cfg'd duplicates): keep list
             self.fns.setdefault(f["path"], []).append(f)
+        self.raw_fns = self.fns
+        if not self.is_test and self.name in ("patronus", "patronus_dse", "patronus_egraphs"):
+            self.fns = PreparedFns(self.raw_fns, self)
         self.adts = {a["path"]: a for a in doc["adts"]}
         self.impls = doc["impls"]
         self.statics = doc["statics"]
@@ -235,7 +270,7 @@ class Facts:
         for c in self.crates:
             if c.is_test and not include_tests:
                 continue
-            for p, fl in c.fns.items():
+            for p, fl in c.raw_fns.items():
                 if c.is_test and p in normal.get(c.name, ()):
                     continue
                 for f in fl:
